@@ -76,6 +76,11 @@ class Case:
 def gen_cases(ctx, lib, n, allowed_classes):
     rng = ctx.rng
     cases = []
+    # the literal grids first: every REAL / STRING / INTEGER spelling class of the grammar once, canonical layout and
+    # with blanks and comments in the gap classes where the property holds
+    grid = W.grid_population(lib.schema)
+    cases.append(Case(lib, grid, Layout(0, ws=False), True, "grid:canonical"))
+    cases.append(Case(lib, grid, Layout(rng.randrange(1 << 30), comment_classes=tuple(GOOD_CLASSES)), True, "grid:layout"))
     for k in range(n):
         pop = widen_strings(rng, lib.schema, W.gen_population(rng, lib.schema, rng.randint(3, 10)))
         mode = k % 6
@@ -162,6 +167,54 @@ def attr_kind_of(schema, inst, msg):
     return attrs[k].kind if k < len(attrs) else "?"
 
 
+BLAND = {"INTEGER": "1", "DEF_INT": "1", "REAL": "1.5", "DEF_REAL": "1.5", "NUMBER": "1.5", "STRING": "'a'", "BINARY": '"0"',
+         "BOOLEAN": ".T.", "LOGICAL": ".T.", "ENUM": ".RED."}
+
+
+def classify(tok):
+    """coarse class of a literal for finding keys"""
+    BS = chr(92)
+    if tok.startswith("'"):
+        kinds = [n for n, pat in [("S-apostrophe", BS + "S" + BS + "'"), ("S", BS + "S" + BS), ("P", BS + "P"), ("X2", BS + "X2" + BS),
+                                  ("X4", BS + "X4" + BS), ("X", BS + "X" + BS), ("bs-bs", BS + BS), ("apos-apos", "''")] if pat in tok[1:-1]]
+        return "string[" + ",".join(kinds) + "]"
+    if R.REAL_RE.match(tok):
+        mant = re.sub(r"E.*", "", tok).lstrip("+-").replace(".", "").strip("0")
+        return ("real[" + ("neg" if tok.startswith("-") else "pos") + (",exp" if "E" in tok else ",fixed") +
+                (",1digit" if len(mant) <= 1 else ",ndigits") + "]")
+    if R.INT_RE.match(tok):
+        return "integer[" + ("neg" if tok.startswith("-") else "pos") + "]"
+    return tok[:12]
+
+
+def blame_parameter(ctx, b, lib, pop, layout):
+    sch = lib.schema
+    for ii, inst in enumerate(pop):
+        for pi, (n, vs) in enumerate(inst.parts):
+            for ai, (a, v) in enumerate(zip(G.part_attrs(sch, inst, pi), vs)):
+                cands = []
+                if v[0] == "tok" and a.kind in BLAND:
+                    cands.append((v[1], ("tok", BLAND[a.kind])))
+                elif v[0] == "aggr":
+                    for ei, x in enumerate(v[1]):
+                        if x[0] == "tok":
+                            cands.append((x[1], ("aggr", v[1][:ei] + v[1][ei + 1:])))
+                elif v[0] == "typed" and v[2][0] == "tok":
+                    cands.append((v[2][1], ("typed", v[1], ("tok", "1.5" if v[1] == "LEN_T" else "1"))))
+                for tok, repl in cands:
+                    c = inst.copy()
+                    c.parts[pi][1][ai] = repl
+                    pop2 = [c if k == ii else x for k, x in enumerate(pop)]
+                    _, r2 = real_one(ctx, b, lib, pop2, layout)
+                    if not oracle(pop2, r2):
+                        # `tok` is what breaks the file: keep only this instance's closure
+                        sub = closure(sch, pop, [inst])
+                        _, r3 = real_one(ctx, b, lib, sub, layout)
+                        m3 = oracle(sub, r3)
+                        return a.kind, tok, (sub if m3 else pop), (m3 or oracle(pop, real_one(ctx, b, lib, pop, layout)[1]))
+    return None
+
+
 def minimise(ctx, b, case, msg):
     """-> (key, what, replay) for a failing conforming file"""
     lib, sch = case.lib, case.lib.schema
@@ -182,6 +235,13 @@ def minimise(ctx, b, case, msg):
         m = re.search(r"#(\d+) ", best_msg)
         inst = next((i for i in best_pop if m and i.id == int(m.group(1))), best_pop[0])
         kind = attr_kind_of(sch, inst, best_msg)
+        if kind == "?":
+            # no parameter named in the message: find the parameter whose replacement by a bland value repairs the file
+            found = blame_parameter(ctx, b, lib, best_pop, canon)
+            if found:
+                k2, tok, pop2, msg2 = found
+                text = canon.render(sch.name, pop2)
+                return f"data:{k2}:{classify(tok)}", msg2, {"schema": lib.express, "file": text, "layout": canon.describe()}
         shape = ""
         mm = re.search(r"parameter \d+: (.*) became", best_msg)
         if mm and mm.group(1).startswith("("):
@@ -303,7 +363,7 @@ def schemas_for(ctx, n):
     out = []
     for k in range(n):
         rng = random.Random(f"C01-schema:{ctx.seed}:{k}")
-        out.append((f"{k}", W.SchemaX(G.gen_schema(rng, f"vs{k}", n_entities=rng.randint(3, 6), cover_all_kinds=(k % 2 == 0)))))
+        out.append((f"{k}", W.SchemaX(G.gen_schema(rng, f"vs{k}", n_entities=rng.randint(3, 6), kinds=list(G.KIND_POOL), cover_all_kinds=(k % 2 == 0)))))
     return out
 
 
